@@ -18,7 +18,12 @@ from aioquic.h3.events import (
 )
 from aioquic.h3.exceptions import InvalidStreamTypeError, NoAvailablePushIDError
 from aioquic.quic.connection import QuicConnection, stream_is_unidirectional
-from aioquic.quic.events import DatagramFrameReceived, QuicEvent, StreamDataReceived
+from aioquic.quic.events import (
+    DatagramFrameReceived,
+    QuicEvent,
+    StopSendingReceived,
+    StreamDataReceived,
+)
 from aioquic.quic.logger import QuicLoggerTrace
 
 logger = logging.getLogger("http3")
@@ -464,6 +469,16 @@ class H3Connection:
                     return self._receive_stream_data(event)
                 elif isinstance(event, DatagramFrameReceived):
                     return self._receive_datagram(event.data)
+                elif isinstance(event, StopSendingReceived) and event.stream_id in (
+                    self._local_control_stream_id,
+                    self._local_decoder_stream_id,
+                    self._local_encoder_stream_id,
+                ):
+                    # The transport has reset the sending part of a stream
+                    # we cannot do without.
+                    raise ClosedCriticalStream(
+                        "Closing critical stream is not allowed"
+                    )
             except ProtocolError as exc:
                 self._is_done = True
                 self._quic.close(
